@@ -3,7 +3,8 @@
 //! case: `{"policy": [stmt..], "recall": [stmt..], "exit": "Normal|Check|Panic", "rec": bool,
 //!         "io": [{"io": "insert|delete|effect", ..}], "facts": [[k, v]..]}`
 //! statements as in the spec: `{"t": "let"}`, `{"t": "call", "c": b}`, `{"t": "check", "c": b,
-//! "e": "panic|recall"}`, `{"t": "recall"}`, `{"t": "finish", "ops": [..]}`,
+//! "e": "panic|recall"}`, `{"t": "recall"}`, `{"t": "dassert", "c": b}`, `{"t": "finish", "ops": [..]}`,
+//! `{"t": "if3", "c": b, "c2": b, "arms": [[..],[..],[..]]}`, `{"t": "stray", "op": {..}, "via": "inline|function"}`,
 //! `{"t": "if", "c": b, "a": [..], "b": [..], "els": b}`, `{"t": "match", "n": k, "arms": [[..],[..],[..]]}`.
 //!
 //! Every case becomes one command `P<i>` (policy block + `recall r()` block) plus an action that
@@ -144,6 +145,18 @@ impl Ren {
                         s += &format!(" else {{\n{}{pad}}}", self.block(st.a("b"), ind + 4));
                     }
                     s += "\n";
+                }
+                "dassert" => {
+                    let c = self.cond(st.b("c"));
+                    s += &format!("{pad}debug_assert({c})\n");
+                }
+                "if3" => {
+                    let c = self.cond(st.b("c"));
+                    let arms = st.a("arms");
+                    s += &format!("{pad}if {c} {{\n{}{pad}}}", self.block(arms[0].as_array().unwrap(), ind + 4));
+                    let c2 = self.cond(st.b("c2"));
+                    s += &format!(" else if {c2} {{\n{}{pad}}}", self.block(arms[1].as_array().unwrap(), ind + 4));
+                    s += &format!(" else {{\n{}{pad}}}\n", self.block(arms[2].as_array().unwrap(), ind + 4));
                 }
                 "match" => {
                     let n = self.sel(st.i("n"));
